@@ -72,20 +72,28 @@ func cmdC05(args []string) error {
 		return err
 	}
 	defer tw.close()
-	perCell := 3
+	perCell, nRand := 3, 1
+	lens := []int{}
+	for n := 0; n <= *maxLen; n++ {
+		lens = append(lens, n)
+	}
 	if *tier == "thorough" {
-		perCell = len(usageSet)
+		perCell, nRand = len(usageSet), 10
+		// beyond the block-boundary range: long messages around powers of two
+		lens = append(lens, 131, 159, 160, 161, 255, 256, 257, 300, 511, 512, 513, 1000, 1023, 1024, 1025, 2048, 4099, 16384)
 	}
 	rot := int(*seed) % len(usageSet)
 	for _, et := range allEtypes {
 		e := mustEtype(et)
-		for n := 0; n <= *maxLen; n++ {
-			for j := 0; j < perCell+1; j++ {
+		for _, n := range lens {
+			for j := 0; j < perCell+nRand; j++ {
 				var u uint32
 				if j < perCell {
 					u = usageSet[(rot+n*perCell+j)%len(usageSet)]
+				} else if j == perCell {
+					u = uint32(1 + r.Intn(2047)) // seeded usages outside the fixed set per cell: one small,
 				} else {
-					u = uint32(1 + r.Intn(2047)) // one seeded usage outside the fixed set per cell
+					u = r.Uint32() // the others over the whole 32-bit range (the usage enters key derivation through n-fold)
 				}
 				key := randKey(r, et)
 				plain := rbytes(r, n)
